@@ -145,3 +145,18 @@ Definition run_packet (buf : list N) : option (list N) :=
 
 Definition run_af (buf : list N) : option (list N) :=
   match (do a <- af_new buf; obs_af 0 a) with Ok l => Some l | Panic _ => None end.
+
+(* ---- C15 suite entry points ---- *)
+Definition opt_of_res {A} (r : res A) : option A := match r with Ok a => Some a | Panic _ => None end.
+
+Definition run_tsb (buf : list N) : option (list N) :=
+  opt_of_res (do a <- ts_from_bytes buf; do p <- ts_from_pts_bytes buf; do d <- ts_from_dts_bytes buf;
+              Ok (enc_ts_result a ++ enc_ts_result p ++ enc_ts_result d)).
+Definition run_tsu (v : N) : option (list N) :=
+  opt_of_res (do t <- ts_from_u64 v; Ok [t; b2n (t <=? TS_MAX)]).
+Definition run_tsw (self since : N) : option (list N) :=
+  opt_of_res (do a <- ts_from_u64 self; do b <- ts_from_u64 since; Ok [b2n (ts_likely_wrapped_since a b)]).
+Definition run_crp (base ext : N) : option (list N) :=
+  opt_of_res (do c <- clockref_from_parts base ext; Ok (enc_clockref c)).
+Definition run_crs (data : list N) : option (list N) :=
+  opt_of_res (do c <- clockref_from_slice data; Ok (enc_clockref c)).
